@@ -11,7 +11,8 @@ RULE = ("for each of the six descriptor classes: base tuple of distinct ids x AL
         "(centre included) x all parity pairs from the class's parity domain x placeholder patterns (one, two, three lone pairs) x "
         "four identifier tuples (10..; seed-derived scattered; 0..n-1 so that the falsy id 0 occurs; ids whose Python hashes collide: "
         "-1/-2, k/k+2^61-1); library ==/hash/"
-        "invert compared with the coordinate-derived symmetry oracle. A case is non-trivial when the two orderings "
+        "invert compared with the coordinate-derived symmetry oracle; descriptors with numpy-typed identifiers / parity behave like the "
+        "plain ones. A case is non-trivial when the two orderings "
         "differ; distinct = distinct (class, ordering pair, parity pair) cases")
 ASSUMPTIONS = [
     "idealised coordination figures of DESIGN.md 4.1 (AtropBond idealised at 90 degree twist)",
@@ -235,6 +236,23 @@ def run_item(item):
             mir = R.mirror(d2)
             if not (di1[0] == cls and di1[2] is not None and R.same(di1, mir)):
                 V("invert-once", d2, di1, f"invert() of {o2} is {i1}, not the mirror image")
+            # the same descriptor with numpy-typed values (identifiers from an index array, the parity as the library's own
+            # coords.handedness() returns it): equal to the plain one, same hash, and its inverse is the same mirror image
+            if item["lo"] == 0 or len(seen_t2) % 7 == 0:
+                import numpy as np
+
+                on = _mk(cls, tuple(a if a is None else np.int64(a) for a in t2), np.int8(p2))
+                try:
+                    gi, ei = _eq(on, o2)
+                    inv = on.invert()
+                    dn = (type(inv).__name__, tuple(None if a is None else int(a) for a in inv.atoms), None if inv.parity is None else int(inv.parity))
+                    out["evals"] += 2
+                    if ei or not gi or hash(on) != hash(o2):
+                        V("numpy-typed", d2, None, f"{on!r} (numpy-typed values) == / hash vs the plain descriptor: {gi} {ei}")
+                    elif not (dn[0] == cls and R.same(dn, mir)):
+                        V("numpy-typed-invert", d2, dn, f"invert() of the numpy-typed {on!r} is {inv!r}, not the mirror image")
+                except Exception as e:
+                    V("numpy-typed-exception", d2, None, f"{e!r}")
             exp = R.same(d2, mir)  # True for achiral classes (and for chiral ones made achiral by two placeholders)
             g, e = _eq(o2, i1)
             bump("self-mirror" if exp else "chiral")
